@@ -1,18 +1,13 @@
-// C13 — tlx::RadixHeap, key types int16_t / uint16_t x radix {2,4,8,16,64} (see c13_radix_heap.hpp for the driver/oracles).
+// C13 — tlx::RadixHeap with uint8_t keys x radix {2,4,8,16,64} (driver and oracles: c13_radix_heap.hpp).
+// Quick tier: radix {2,8,64} of this key type.
 #include "c13_radix_heap.hpp"
 
 namespace c13 {
-void register_radix_b(std::vector<Config>& out, bool thorough) {
-    // quick tier: one key type of this TU x radix {2,8,64}
-    add_radix<int16_t, 2>(out, thorough, true, 10);
-    add_radix<int16_t, 4>(out, thorough, false, 10);
-    add_radix<int16_t, 8>(out, thorough, true, 10);
-    add_radix<int16_t, 16>(out, thorough, false, 10);
-    add_radix<int16_t, 64>(out, thorough, true, 10 * 1.5);
-    add_radix<uint16_t, 2>(out, thorough, false, 10);
-    add_radix<uint16_t, 4>(out, thorough, false, 10);
-    add_radix<uint16_t, 8>(out, thorough, false, 10);
-    add_radix<uint16_t, 16>(out, thorough, false, 10);
-    add_radix<uint16_t, 64>(out, thorough, false, 10 * 1.5);
+void register_radix_2(std::vector<Config>& out, bool thorough) {
+    add_radix<uint8_t, 2>(out, thorough, true);
+    add_radix<uint8_t, 4>(out, thorough, false);
+    add_radix<uint8_t, 8>(out, thorough, true);
+    add_radix<uint8_t, 16>(out, thorough, false);
+    add_radix<uint8_t, 64>(out, thorough, true);
 }
 }  // namespace c13
